@@ -951,6 +951,19 @@ class ObjWorld(Run):
         if s.kind in VALUE_KINDS and q in ("expect_pauli", "expect_list", "expect_poly", "expect_state", "entropy",
                                            "get_prob", "sample", "density_matrix", "diagonalize") and _sN(o) != n:
             raise Skip()
+        # size guard (harness resource bound, not an oracle): products of polynomials multiply
+        # their term counts and torchclifford does not merge equal terms - a few chained
+        # products give a million-term object whose repr() alone takes minutes
+        def _terms(x, k):
+            try:
+                return int(len(x.cs)) if k == "poly" else (int(x.gs.shape[0]) if k in ("list", "map", "state") else 1)
+            except Exception:
+                return 1
+        ta = _terms(o, s.kind)
+        tb = _terms(arg, a.kind) if arg is not None else 1
+        if ta > 512 or tb > 512 or (q == "matmul" and ta * tb > 2048):
+            self.stats["skipped:operand_too_large"] += 1
+            raise Skip()
         pre = self.snapshot_all()
         seams.prepare_call(op)
         res = None
@@ -1236,6 +1249,11 @@ class ObjWorld(Run):
         for a in extend_from:
             if shares(recv.obj, recv.kind, a.obj, a.kind):
                 recv.roots |= a.roots
+            # the argument may have landed elsewhere than in the receiver itself (a layer that is
+            # part of a circuit hands a gate on to its neighbours): whoever holds it now may alias it
+            for y in self.slots.values():
+                if y is not a and y is not recv and shares(y.obj, y.kind, a.obj, a.kind):
+                    y.roots |= a.roots
         if extend_from:
             # containers are held by reference: whatever currently contains the receiver
             # (a circuit holding this gate, ...) now also may-alias what the receiver holds
